@@ -171,6 +171,7 @@ func Judge(sp *Spec, r *vsched.Result) []string {
 		a, b := cbs[p[0]], cbs[p[1]]
 		if a != nil && b != nil && a.enters > 0 && b.enters > 0 && a.enterStep > b.enterStep {
 			add("C02", "callback %s (submitted first) started after %s in group %q", p[0], p[1], a.group)
+			add("C08", "the messages of group %q are not in submission order: callback %s (submitted first) started after %s", a.group, p[0], p[1])
 		}
 		if !sp.Shutdown && b != nil && b.enters > 0 && (a == nil || a.enters == 0) {
 			add("C02", "callback %s ran but earlier submission %s never did", p[1], p[0])
